@@ -105,3 +105,57 @@ Qed.
 (* not vacuous: every named function is in the graph and its results ARE derived from parameter q *)
 Definition all_from (fns : list fn_rec) (rf : list (N * list N)) (prims : list string) (q : N) : bool :=
   forallb (fun n => existsb (fun f => String.eqb (fn_name f) n && memN q (result_from rf (fn_id f))) fns) prims.
+
+(* ---- through which parameters a function may WRITE, and what it stores there (fp_store_from):
+   (t, from) = the function may write memory reached through parameter t - a store through a
+   pointer derived from t, a map update, an append or copy into a slice derived from t, a call
+   that does -, and the values it stores there may be derived from the parameters in from (the
+   relation of fp_result_from; scalars, copies and fresh memory are derived from nothing). *)
+Definition store_facts := list (N * list (N * list N)).
+
+Definition stores_of (sf : store_facts) (i : N) : list (N * list N) :=
+  match find (fun e => N.eqb (fst e) i) sf with Some e => snd e | None => [] end.
+
+Definition ends_with (suf s : string) : bool :=
+  let n := String.length s in
+  let m := String.length suf in
+  if Nat.leb m n then String.eqb (substring (n - m) m s) suf else false.
+
+(* the functions a statement speaks about are named by the end of their name: "Inspector).Loop" *)
+Definition named (sufs : list string) (f : fn_rec) : bool := existsb (fun suf => ends_with suf (fn_name f)) sufs.
+
+(* checked: no function named so writes through a parameter in ps *)
+Definition never_through (fns : list fn_rec) (sf : store_facts) (sufs : list string) (ps : list N) : bool :=
+  forallb (fun f => if named sufs f then forallb (fun e => negb (memN (fst e) ps)) (stores_of sf (fn_id f)) else true) fns.
+
+Theorem never_through_sound fns sf sufs ps :
+  never_through fns sf sufs ps = true ->
+  forall f, In f fns -> named sufs f = true ->
+  forall t from, In (t, from) (stores_of sf (fn_id f)) -> ~ In t ps.
+Proof.
+  unfold never_through. intros H f Hf Hn t from Hin Hp. rewrite forallb_forall in H. specialize (H f Hf).
+  rewrite Hn in H. rewrite forallb_forall in H. specialize (H _ Hin). cbn in H.
+  apply memN_In in Hp. rewrite Hp in H. discriminate.
+Qed.
+
+(* checked: whatever a function named so stores through parameter t is derived from parameters in allowed only *)
+Definition stored_only_from (fns : list fn_rec) (sf : store_facts) (sufs : list string) (t : N) (allowed : list N) : bool :=
+  forallb (fun f => if named sufs f
+                    then forallb (fun e => if N.eqb (fst e) t then forallb (fun q => memN q allowed) (snd e) else true) (stores_of sf (fn_id f))
+                    else true) fns.
+
+Theorem stored_only_from_sound fns sf sufs t allowed :
+  stored_only_from fns sf sufs t allowed = true ->
+  forall f, In f fns -> named sufs f = true ->
+  forall from, In (t, from) (stores_of sf (fn_id f)) -> forall q, In q from -> In q allowed.
+Proof.
+  unfold stored_only_from. intros H f Hf Hn from Hin q Hq. rewrite forallb_forall in H. specialize (H f Hf).
+  rewrite Hn in H. rewrite forallb_forall in H. specialize (H _ Hin). cbn in H.
+  rewrite N.eqb_refl in H. rewrite forallb_forall in H. apply memN_In. apply H. exact Hq.
+Qed.
+
+(* not vacuous: how many functions named so do store through t something derived from q *)
+Definition count_storing (fns : list fn_rec) (sf : store_facts) (sufs : list string) (t q : N) : nat :=
+  List.length (filter (fun f => named sufs f && existsb (fun e => N.eqb (fst e) t && memN q (snd e)) (stores_of sf (fn_id f))) fns).
+
+Definition count_named (fns : list fn_rec) (sufs : list string) : nat := List.length (filter (named sufs) fns).
